@@ -156,6 +156,34 @@ pub fn drive(args: &[String]) {
             corpus.push((enc(&cyc[..3]), "cyclic-types"));
         }
     }
+    // instructions that lost their last word(s) (the word count says so): the numeric type declarations the parser's
+    // tracker reads -- followed by a constant and a switch typed by them -- always, every other opcode sampled
+    {
+        let gen = Gen { g: &g };
+        crate::ggen::NO_CTX.with(|c| c.set(true));
+        let short = |i: &SInst, drop: usize| -> Vec<u32> { let mut w = i.encode(); let keep = w.len().saturating_sub(drop).max(1); w.truncate(keep); w[0] = ((keep as u32) << 16) | i.op; w };
+        for (op, full) in [(21u32, vec![1u32, 64, 0]), (21, vec![1, 32, 1]), (22, vec![1, 64]), (22, vec![1, 16])] {
+            for drop in 0..=full.len() {
+                let decl = SInst { op, rt: None, rid: Some(full[0]), ops: full[1..].iter().map(|w| SOp::one("LiteralBit32", *w)).collect() };
+                let mut ws: Vec<u32> = HEADER.to_vec();
+                ws.extend(short(&decl, drop));
+                ws.extend([(4 << 16) | 43, 1, 2, 7, (3 << 16) | 1, 1, 3, (5 << 16) | 251, 3, 9, 1, 9]);
+                corpus.push((words_to_bytes(&ws), "short-inst"));
+            }
+        }
+        let ops: Vec<u32> = g.insts.keys().cloned().collect();
+        for (j, op) in ops.iter().enumerate() {
+            if j % 8 != n % 8 { continue; }
+            let mut ctx = Ctx::new();
+            let inst = gen.inst(*op, &mut rng, &mut ctx, &Plan::random());
+            for drop in [1usize, 2] {
+                let mut ws: Vec<u32> = HEADER.to_vec();
+                ws.extend(short(&inst, drop));
+                corpus.push((words_to_bytes(&ws), "short-inst"));
+            }
+        }
+        crate::ggen::NO_CTX.with(|c| c.set(false));
+    }
     // OpSpecConstantOp embedding every opcode number with 0..5 operand words (sampled)
     let mut opnums: Vec<u32> = g.insts.keys().cloned().collect();
     opnums.extend([9u32, 65535, 0x0001_003d]);
